@@ -50,10 +50,18 @@ Choose ==
 Images(M, d) == LET ps == SetToSeq(TestPts(d)) IN [i \in 1..Len(ps) |-> <<ps[i], Primitive(MatVec(M, ps[i]))>>]
 ImagesOf(M, ps) == [i \in 1..Len(ps) |-> <<ps[i], Primitive(MatVec(M, ps[i]))>>]
 
+Hyp == << <<0,1,0>>, <<1,0,0>>, <<0,0,-2>> >>        \* x y = w^2
+Par == << <<2,0,0>>, <<0,0,-1>>, <<0,-1,0>> >>       \* x^2 = y w
 \* conics with three lattice points on them (for from_points_and_conics)
 ConicPts == { <<SphereM(<<0, 0>>, 25), << <<3,4,1>>, <<-4,3,1>>, <<5,0,1>> >> >>,
               <<SphereM(<<1, 2>>, 4),  << <<3,2,1>>, <<1,4,1>>, <<-1,2,1>> >> >>,
-              << << <<0,0,-1>>, <<0,2,0>>, <<-1,0,0>> >>, << <<0,0,1>>, <<1,1,1>>, <<4,-2,1>> >> >> }
+              << << <<0,0,-1>>, <<0,2,0>>, <<-1,0,0>> >>, << <<0,0,1>>, <<1,1,1>>, <<4,-2,1>> >> >>,
+              \* the hyperbola x y = 1 and the parabola y = x^2 with one of the three points at infinity, in every position
+              << Hyp, << <<1,1,1>>, <<4,1,2>>, <<1,0,0>> >> >>, << Hyp, << <<1,0,0>>, <<1,1,1>>, <<-1,-1,1>> >> >>,
+              << Hyp, << <<1,4,2>>, <<0,1,0>>, <<-1,-4,2>> >> >>, << Hyp, << <<1,0,0>>, <<0,1,0>>, <<1,1,1>> >> >>,
+              << Par, << <<0,0,1>>, <<1,1,1>>, <<0,1,0>> >> >>, << Par, << <<0,1,0>>, <<2,4,1>>, <<-1,1,1>> >> >>,
+              << Par, << <<1,1,1>>, <<0,1,0>>, <<-2,4,1>> >> >> }
+ASSUME \A cp \in ConicPts : \A i \in 1..3 : OnQuadric(cp[1], cp[2][i])
 
 Compute ==
   /\ pc = "chosen" /\ pc' = "done" /\ UNCHANGED <<task, arg>>
